@@ -94,6 +94,19 @@ CHECKS += [
              "combination operations in histories are covered by the correspondence (model-predicted challenge counts) and the implementation-level "
              "lock-step oracle (all schemes)."},
 ]
+CHECKS += [
+    {"property_id": "C07",
+     "text": "Partial (structural hiding). Coq theorems: a hiding KZG10 commitment is the non-hiding commitment plus a blinding term under the gamma "
+             "powers whose polynomial is exactly the first h+2 draws of the caller's RNG (degree h+1), for every key window; without a hiding bound "
+             "no draw, empty state, commitment independent of the RNG; hiding without RNG is refused (KZG10 error, Marlin abort); the proof's blinding "
+             "field is the blinding polynomial's value at the point; two streams give equal commitments iff beta is a root of the difference; a single "
+             "commitment is perfectly hiding (bijection on blinding polynomials); Marlin draws 2*(h+2) elements for a degree-bounded polynomial. "
+             "Correspondence: replayed RNG tapes - blinding polynomials, draw counts, commitments and proof blinding values of KZG10 and Marlin "
+             "compared with the model; implementation-level: equal/different seeds, 7 repeated commitments pairwise distinct, proofs under "
+             "different streams differ, zero bytes consumed without hiding, refusal without RNG, for Marlin, Sonic, IPA, PST13, Hyrax.",
+     "note": COMMON_NOTE + " Not attempted: statistical hiding against h evaluation queries (probabilistic statement, DESIGN.md section 6). Sonic, "
+             "IPA, PST13 and Hyrax blinding shapes are observed on the implementation (supporting search), not yet modelled."},
+]
 _PENDING = "check not built yet in this round (model and correspondence under construction; see DESIGN.md section 7)"
 _CLAIMED = {c["property_id"] for c in CHECKS}
 NOT_APPLICABLE = [{"property_id": "C%02d" % i, "reason": _PENDING} for i in range(1, 20) if "C%02d" % i not in _CLAIMED]
